@@ -37,15 +37,19 @@ class Dut:
         bits = [i for i in range(self.n) if (v >> i) & 1]
         return bits[0] if len(bits) == 1 else -1
 
-    def reset(self):
+    def reset(self, reqs=(), en=False):
+        """one cycle with reset high; the request and enable lines may be active meanwhile"""
         t = self.top
         t.reset @= 1
-        t.reqs @= 0
+        t.reqs @= sum(1 << i for i in reqs)
         if self.has_en:
-            t.en @= 0
+            t.en @= int(en)
+        t.sim_eval_combinational()
+        g = int(t.grants)
         t.sim_tick()
         t.reset @= 0
-        return {"k": "reset", "ptr": self.ptr()}
+        return {"k": "reset", "reqs": sorted(reqs), "en": bool(en),
+                "grants": [i for i in range(self.n) if (g >> i) & 1], "ptr": self.ptr()}
 
     def cycle(self, reqs, en):
         t = self.top
@@ -102,10 +106,9 @@ def _graph_walk(res, nmax):
             dut = Dut(n, has_en)
 
             def apply(name, args):
-                if name == "Reset":
-                    dut.reset()
-                    return None
                 R, en = args
+                if name == "Reset":
+                    return dut.reset(sorted(R), en)
                 return dut.cycle(sorted(R), en)
 
             nedges = 0
@@ -154,7 +157,12 @@ def _traces(res, nmax, nrand, randlen):
                         ev = [dut.reset()]
                         if p != 0:
                             ev.append(dut.cycle([p - 1], True))
-                        ev.append(dut.cycle([i for i in range(n) if (bits >> i) & 1], en))
+                        rq = [i for i in range(n) if (bits >> i) & 1]
+                        ev.append(dut.cycle(rq, en))
+                        # reset while the same requests stay pending and the enable keeps its value,
+                        # then one more cycle: priority must restart at input 0
+                        ev.append(dut.reset(rq, en))
+                        ev.append(dut.cycle(rq, True))
                         traces.append({"n": n, "hasEn": has_en, "ev": ev})
                         res.distinct(("t", n, has_en, p, bits, en))
     nexh = len(traces)
@@ -167,7 +175,8 @@ def _traces(res, nmax, nrand, randlen):
         for c in range(randlen):
             mode = R.random()
             if mode < 0.02:
-                ev.append(dut.reset())
+                for _ in range(R.choice([1, 1, 2, 3])):
+                    ev.append(dut.reset(sorted(sticky) if R.random() < 0.7 else [], R.random() < 0.7))
                 continue
             if mode < 0.3:
                 sticky = {i for i in range(n) if R.random() < 0.5}
